@@ -97,6 +97,14 @@ class Harness:
             if dg > d:
                 raise GhostViolation('output-threshold', f'output with threshold {d} (t_v={H.tv}) of a degree-{dg} sharing')
             C.opened.append(x)
+            if getattr(C, 'openlog', None) is not None:
+                # leak ghost (C18): every value handed to output inside a protocol, with the protocol function that opens it
+                fr = sys._getframe(1); who = '?'
+                while fr is not None:
+                    if fr.f_code.co_filename.endswith(('runtime.py', 'random.py', 'statistics.py', 'seclists.py', 'mpctools.py')) and 'mpyc' in fr.f_code.co_filename:
+                        who = fr.f_code.co_name; break
+                    fr = fr.f_back
+                C.openlog.append(dict(x=x, final=bool(getattr(C, 'final_open', False)), who=who, threshold=threshold))
             C.nonaffine_ok += 1
             try:
                 y = with_t0(H.real['output'], x, receivers, None, raw)
@@ -151,7 +159,10 @@ class Harness:
             if dg > H.tv:
                 raise GhostViolation('is_zero_public-degree', f'is_zero_public of a degree-{dg} sharing')
             val = v.value if hasattr(v, 'value') else v
-            if not isinstance(val, SymInt): return val == 0
+            if not isinstance(val, SymInt):
+                if getattr(C, 'openlog', None) is not None:      # leak ghost: the public outcome of the zero test is part of every party's view
+                    C.openlog.append(dict(x=bool(val == 0), final=False, who='is_zero_public(bit)', threshold=None))
+                return val == 0
             return C.branch(is_zero_formula(val))
 
         def reciprocal(a):
@@ -240,7 +251,11 @@ class Harness:
     def open(self, x):
         """open through the real output (raw) and return SymInt/int values"""
         rt = self.rt
-        y = rt.run(rt.output(x, raw=True)) if not isinstance(x, (int, SymInt)) else x
+        C.final_open = True          # the driver's own opening of the results: the outputs of the ideal functionality, not a leak
+        try:
+            y = rt.run(rt.output(x, raw=True)) if not isinstance(x, (int, SymInt)) else x
+        finally:
+            C.final_open = False
         def val(a):
             return a.value if hasattr(a, 'value') else a
         return [val(a) for a in y] if isinstance(y, list) else val(y)
